@@ -64,6 +64,7 @@ type Engine struct {
 	sampleBudget atomic.Int64
 	rtypeMu      sync.Mutex
 	rtypes       map[string]*Value
+	rtypeObjs    map[string]*NativeObj
 }
 
 func (e *Engine) noteInitStop(pkg, msg string) {
